@@ -385,7 +385,19 @@ def small_model():
 
     OpacityCache().clear_cache()
     OpacityCache().add_opacity(MemOpacity())
-    chem = TaurexChemistry(fill_gases=['H2', 'He'], ratio=0.17)
+    class CondChemistry(TaurexChemistry):
+        """the free chemistry plus one condensate whose profile follows the temperature (so it differs between samples):
+        compute_error then also pools `condensate_profile_std` over the ranks"""
+
+        def initialize_chemistry(self, nlayers=100, temperature_profile=None, pressure_profile=None,
+                                 altitude_profile=None):
+            super().initialize_chemistry(nlayers, temperature_profile, pressure_profile, altitude_profile)
+            self._cond = np.array([1e-9 * np.asarray(temperature_profile, float) * np.linspace(1.0, 2.0, nlayers)])
+
+        condensates = property(lambda self: ['Mg2SiO4'])
+        condensateMixProfile = property(lambda self: self._cond)
+
+    chem = CondChemistry(fill_gases=['H2', 'He'], ratio=0.17)
     chem.addGas(ConstantGas('H2O', mix_ratio=1e-3))
     m = TransmissionModel(planet=Planet(1.0, 1.0), star=BlackbodyStar(5800, 1.0),
                           temperature_profile=Isothermal(1200.0), chemistry=chem, nlayers=5,
